@@ -1256,6 +1256,9 @@ func (p *CodeBuilder) ensureLoaded(typ types.Type) {
 }
 
 func getUnderlying(pkg *Package, typ types.Type) types.Type {
+	if typ == nil { // operand without a value
+		return nil
+	}
 	u := typ.Underlying()
 	if u == nil {
 		if t, ok := typ.(*types.Named); ok {
